@@ -153,11 +153,25 @@ func keyValue(r *kit.Rng, s *schema.Node, o GenOpts) string {
 	if n <= 0 {
 		n = 4
 	}
+	if s.Parent != nil && len(s.Parent.Keys) > 1 {
+		// parts of a compound key come from pools whose members run into one another
+		// when glued together: ("k1",21) and ("k12",1), ("k","1k") and ("k1","k")
+		if n > len(confusableInts) {
+			n = len(confusableInts)
+		}
+		if s.Type == "int32" {
+			return confusableInts[r.Intn(n)]
+		}
+		return confusableStrs[r.Intn(n)]
+	}
 	if s.Type == "int32" {
 		return fmt.Sprint(1 + r.Intn(n))
 	}
 	return "k" + fmt.Sprint(r.Intn(n))
 }
+
+var confusableInts = []string{"1", "21", "12", "2", "121", "11"}
+var confusableStrs = []string{"k1", "k12", "k", "1k", "k1k", "12"}
 
 // pickCases decides, per choice under s, which single case (if any) may hold
 // data, so that generated trees are conforming.
